@@ -474,6 +474,13 @@ class Scenario:
         if env:
             e.update(env)
         e.update(self.env.get("environ") or {})
+        if self.env.get("nofile"):
+            # a soft limit on open descriptors (the properties promise a bounded number of open blk files: a run must fit)
+            lim, inner = int(self.env["nofile"]), preexec
+            def preexec():
+                if inner:
+                    inner()
+                resource.setrlimit(resource.RLIMIT_NOFILE, (lim, resource.getrlimit(resource.RLIMIT_NOFILE)[1]))
         r = Result()
         try:
             p = _run_watch(cmd, e, preexec, timeout, dump, cwd=cwd, tty=bool(self.env.get("tty")))
